@@ -66,6 +66,14 @@ inductive Mode | unspec | client | server
 
 def Mode.ofNum (n : Nat) : Mode := [Mode.unspec, .client, .server].getD n .unspec
 
+/-- Go `run()` (connectconformance.go): the run mode is derived from which commands were given —
+only a client command: a client is tested (against the reference server); only a server command:
+a server is tested; both or neither: unspecified (neither client- nor server-only suites). -/
+def runMode (clientCmd serverCmd : Bool) : Mode :=
+  if !serverCmd && clientCmd then .client
+  else if !clientCmd && serverCmd then .server
+  else .unspec
+
 /-- a test case template of a suite: what expansion reads; everything else is carried along -/
 structure Test where
   name : String
